@@ -95,19 +95,27 @@ class C13(scen.PairProp):
                 else:
                     k = rng.choice(late_ok)
                 idx = r * len(humans) + humans.index(b)
+                if rng.random() < 0.3:
+                    # under Ringing Room's control, the (same) peal speed sent again shortly before the blunder:
+                    # a setting is no reason to start believing every strike
+                    server = True
+                    t_bl = min(evB[idx][0], evB[idx][0] + k * I)
+                    pre = [[t_bl - rng.uniform(0.2, 2.5) * I, "msg", {"m": "setting", "kvs": [["peal_speed", ps]]}]]
                 evB[idx][0] += k * I
                 detail = [r, b, k]
             end = a + I * scen.blow_index(N, gap, rows, 0) + 0.5
             maxb = rng.choice([5, 15, 30])
 
-            def mk(evs, server=server, pre=pre, inertia=inertia, maxb=maxb):
+            def mk(evs, server=server, pre=pre, inertia=inertia, maxb=maxb, mode=mode):
                 if server:
                     js = {"type": "method", "stage": N, "notation": "x1", "bob": {"0": "14"}, "single": {"0": "1234"}}
                     evs = sorted([[t0 - 0.7, "msg", {"m": "row_gen", "json": js}]] + pre + [call(t0, LOOK_TO)] + evs,
                                  key=lambda e: e[0])
                     return {"start": 1000.0, "end": end, "tower_size": N, "events": evs,
                             "on_join": scen.humans_on_join(humans, "Wheatley", [b for b in range(1, 17) if b not in humans]),
-                            "bot": scen.bot_cfg({"type": "placeholder"}, up_down_in=True, user_name="Wheatley", server_id=4),
+                            # (for the blunder pairs the band rings rounds throughout: the method is never started)
+                            "bot": scen.bot_cfg({"type": "placeholder"}, up_down_in=(mode != "blunder"),
+                                                user_name="Wheatley", server_id=4),
                             "rhythm": scen.rhythm_cfg("regression", inertia=inertia, peal_speed=ps, gap=gap, max_bells=maxb)}
                 return {"start": 1000.0, "end": end, "tower_size": N, "events": [call(t0, LOOK_TO)] + evs,
                         "on_join": scen.humans_on_join(humans),
